@@ -107,6 +107,19 @@ theorem moveToEnded_apis (p p1 : Pool) (t : Nat) (h : p.moveToEnded t = some p1)
     · simp at h; subst h; rfl
     · simp at h
 
+theorem moveToEnded_gathers (p p1 : Pool) (t : Nat) (h : p.moveToEnded t = some p1) : p1.gathers = p.gathers := by
+  unfold moveToEnded at h
+  split at h
+  · simp at h; subst h; rfl
+  · split at h
+    · simp at h; subst h; rfl
+    · simp at h
+
+@[simp] theorem schedOpt_gathers (p : Pool) (o) : (p.schedOpt o).gathers = p.gathers := by cases o <;> rfl
+
+theorem releasePool_gathers (p : Pool) : p.releasePool.gathers = p.gathers := by
+  unfold releasePool; simp
+
 theorem moveToEnded_reqs (p p1 : Pool) (t : Nat) (h : p.moveToEnded t = some p1) : p1.reqs = p.reqs := by
   unfold moveToEnded at h
   split at h
